@@ -272,6 +272,17 @@ class ExactCollections:
             return state
         return self.put(state, ref, dict_set(c, Const(attr), value))
 
+    def while_continue(self, node, state):
+        """Another round of a `while` loop: unbounded on exact paths; on a path already marked imprecise (a size
+        compared with a far-away constant, an unknown iterable) at most three rounds per loop."""
+        if not state.get("#imprecise", 0):
+            return state
+        key = ("witer", node.lineno)
+        n = state.get(key, 0)
+        if n >= 3:
+            return None
+        return state.set(key, n + 1)
+
     def _apply_key(self, node, keyf, x, state):
         """A key function (lambda, operator.itemgetter) applied to one element -> (value, state) or None."""
         if isinstance(keyf, ItemGetter):
